@@ -36,6 +36,15 @@ def gen(tier, rng):
         # one model-compared case per set (cheap message found with the Python signer)
         best = min((bytes(rng.randrange(256) for _ in range(10)) for _ in range(10)), key=lambda mm: len(pyref.sign(p, sk, mm, want_trace=True)[1]))
         out.append(Case("signature", cp, [bytes(p.sig), best, sk, 0, b""], ["in_domain", "deterministic", "model-compared"]))
+    # kernel dependency: the low-bits test uses Decompose; its wrap-around bucket (a > q-1-gamma2, where r1 becomes 0 and r0 is
+    # lowered by one) is reached by about 1 coefficient in 32..88, and the bound gamma2-beta is missed by ONE there if the fix-up is lost
+    from dlib import LEVEL_OF, Q as _Q
+    for lv in ("lvl2", "lvl3", "lvl5"):
+        pp = Par(lv)
+        for a in [_Q - 1, _Q - 2, _Q - pp.g2, _Q - pp.g2 - 1, _Q - pp.g2 + 1, _Q - 1 - pp.g2 + pp.beta, _Q - pp.g2 + pp.beta, _Q - 1 - (pp.g2 - pp.beta), _Q - (pp.g2 - pp.beta),
+                  0, 1, pp.g2, pp.g2 + 1, 2 * pp.g2] + [rng.randrange(_Q - pp.g2, _Q) for _ in range(12)] + [rng.randrange(_Q) for _ in range(12)]:
+            r1, r0 = pyref.decompose(pp, a)
+            out.append(Case("decompose", lv, [a], ["in_domain", "kernel-dependency"], aux=("decompose", r0, r1)))
     # committed rare-path corpus: attempts rejected only by ||c*t0|| >= gamma2, and rejection chains of 37..165 attempts
     for name, tag in (("c05_ct0_rejections.json", "cause-ct0"), ("c05_long_chains.json", "long-chain"), ("c05_very_long_chains.json", "very-long-chain")):
         for e in corpus(name):
@@ -83,6 +92,9 @@ def check_sig(p, sk, m, sig):
 
 
 def oracle(c, outs):
+    if c.fn == "decompose":
+        _, r0, r1 = c.aux
+        return None if (outs[0], outs[1]) == (r0, r1) else "decompose/%s(%s) = (a0=%d, a1=%d), the specification gives (r0=%d, r1=%d)" % (c.copy, c.args[0], outs[0], outs[1], r0, r1)
     p = Par(c.copy)
     if c.fn == "signature_live":
         m, sk = bytes.fromhex(c.args[0][1:]), bytes.fromhex(c.args[1][1:])
